@@ -56,6 +56,8 @@ def setup_worker(ctx):
 
 
 def finish_worker(ctx):
+    if ROUTER_RETRIES[0]:
+        ctx.count("graphviz_spline_router_gave_up(rendered_again_without_routing)", ROUTER_RETRIES[0])
     common.finish(ctx)
 
 
@@ -73,9 +75,38 @@ def squash(s):
     return re.sub(r"\s+", "", s)
 
 
+ROUTER_RETRIES = [0]
+
+
 def render(dot_text):
     p = subprocess.run(["dot", "-Tjson"], input=dot_text.encode("utf-8"), capture_output=True, timeout=120)
-    return p.returncode, p.stderr.decode("utf-8", "replace"), p.stdout
+    err = p.stderr.decode("utf-8", "replace")
+    if any(s in err for s in ("triangulation failed", "libpath", "spline routing", "Unable to reclaim box space")):
+        # Graphviz' spline router gives up on some layouts (very wide nodes): a limit of the renderer, not of the DOT text.  The text
+        # is rendered again without edge routing; everything the check reads (nodes, clusters, edges, drawn text) is still produced.
+        ROUTER_RETRIES[0] += 1
+        p = subprocess.run(["dot", "-Tjson", "-Gsplines=false"], input=dot_text.encode("utf-8"), capture_output=True, timeout=120)
+        err = p.stderr.decode("utf-8", "replace")
+    return p.returncode, err, p.stdout
+
+
+def overlapping_clusters(text):
+    """Does some node id occur (as a node statement or an edge end) inside two different cluster blocks of the DOT text?"""
+    import re
+    seen = {}
+    cur = None
+    depth = 0
+    for line in text.splitlines():
+        m = re.match(r"\s*subgraph (cluster_\w+)", line)
+        if m:
+            cur, depth = m.group(1), 0
+        if cur is not None:
+            depth += line.count("{") - line.count("}")
+            for nid in re.findall(r"(?<![\w.])([nb]\d+)(?![\w.])", line.split("[")[0]):
+                seen.setdefault(nid, set()).add(cur)
+            if depth <= 0 and "}" in line:
+                cur = None
+    return any(len(v) > 1 for v in seen.values())
 
 
 def drawn_text(obj):
@@ -137,6 +168,18 @@ def check_render(doc, opt, ctx):
     except Exception as e:
         return ["prov_to_dot raised %s: %s" % (type(e).__name__, str(e)[:200])], None
     rc, err, out = render(text)
+    if rc != 0 and "trouble in init_rank" in err:
+        # open finding KF-C15-1: a name used in several bundles is one node for prov.dot, written into several clusters; Graphviz'
+        # ranking gives up on overlapping clusters once there are many.  Attributed only if the finding is open, a node really sits
+        # in two clusters, and the *same text* is accepted as soon as the clusters are plain subgraphs (the neutraliser).
+        import re
+        from pv import findings
+        flat = re.sub(r"subgraph cluster_", "subgraph plain_", text)
+        rc2, err2, _out2 = render(flat)
+        if "KF-C15-1" in findings.OPEN and rc2 == 0 and not err2.strip() and overlapping_clusters(text):
+            ctx.known_finding("KF-C15-1", "Graphviz: trouble in init_rank (a node drawn in several clusters)", {"clusters": text.count("subgraph cluster_")})
+            ctx.count("not_judged.structure_of_documents_hitting_KF-C15-1")
+            return [], text
     if rc != 0 or err.strip():
         return ["Graphviz rejects or warns (exit %s): %s" % (rc, err.strip()[:300])], text
     try:
